@@ -279,7 +279,8 @@ def run_fastpath(case, ctx: Ctx):
 # Branch points of gpytorch/functions/_log_normal_cdf.py (forward and backward): z < -1 -> rational tail approximation
 # (backward: |den/num|*sqrt(2/pi)); z^2 < 0.04 -> series around 0; otherwise log(Normal.cdf(z)); the backward of the last
 # two is exp(-z^2/2 - forward + log .5)*sqrt(2/pi).  -1 itself and +-0.2 (0.2**2 > 0.04 in binary64) are 'ordinary'.
-LN_BP = (-1.0, -0.2, 0.2)
+# (since fix F46 the rational tail is used for z < -11.3137 only and erfc in between; -1 stays the property's tolerance switch)
+LN_BP = (-1.0, -0.2, 0.2, -11.3137)
 TAIL_RTOL = 2e-3  # property text (C13/C19): 2e-3 in the z < -1 tail
 REST_RTOL = 1e-10  # ... to rounding elsewhere
 TAIL_ZONE = -1.3
@@ -291,7 +292,7 @@ def _z_elem():
     deltas = [0.0, 2.220446049250313e-16, 1e-12, 1e-9, 1e-6, 1e-3]
     near = st.tuples(st.sampled_from(LN_BP), st.sampled_from(deltas), st.sampled_from([-1.0, 1.0])).map(lambda t: t[0] + t[1] * t[2])
     return st.one_of(
-        f(-1e6, -12.0), f(-12.0, -1.3), f(-12.0, -1.3), f(-1.3, -1.0), f(-1.3, -1.0), near, near,
+        f(-1e6, -12.0), f(-12.0, -11.0), f(-12.0, -1.3), f(-12.0, -1.3), f(-1.3, -1.0), f(-1.3, -1.0), near, near,
         f(-1.0, -0.2), f(-0.2, 0.2), f(-0.2, 0.2), st.just(0.0), f(0.2, 8.0), f(0.2, 8.0), f(8.0, 40.0), LATTICE,
     )
 
